@@ -28,7 +28,9 @@ CONSTANTS Families,    \* set of <<r, n>>: all sets of 1..n integer coordinates 
           MaxLenUp,    \* up_sample / neighborhood are explored on sets of at most that many triangles
           MaxLenObs,   \* containing_indices is explored on sets of at most that many triangles
           MaxLenSel,   \* for_indexes is explored on sets of at most that many triangles
-          SelAllMax    \* all non-empty index subsets are explored on sets of at most that many triangles
+          SelAllMax,   \* all non-empty index subsets are explored on sets of at most that many triangles
+          FreeFamilies \* set of <<gx, gy, nv, nt>>: vertex/index arrays with nv distinct vertices on the integer grid
+                       \* (0..gx-1) x (0..gy-1) and 2..nt non-degenerate triangles that use all of them are initial inputs
 
 -----------------------------------------------------------------------------
 (* Layer 1: meaning (from the property statement; parametrised, reused by   *)
@@ -115,8 +117,10 @@ Equilateral(t) == Q(t[1], t[2]) > 0 /\ Q(t[1], t[2]) = Q(t[2], t[3]) /\ Q(t[2], 
 \* a2 is the mirror image of a in the line through b and c (the two circles about b and c meet in a and a2 only)
 IsMirror(a2, a, b, c) == a2 # a /\ Q(a2, b) = Q(a, b) /\ Q(a2, c) = Q(a, c)
 Nxt(k) == (k % 3) + 1
-\* the neighbour of t across the edge opposite to vertex k.  For an equilateral triangle the mirror image of the
-\* vertex is b + c - a (theorem MirrorIsPointReflection below).
+\* The neighbour of t across the edge opposite to vertex k: the triangle that shares that edge and is the image of t
+\* under the half-turn about the edge's midpoint (a goes to b + c - a).  This is what "edge-reflected" means for an
+\* arbitrary vertex array; for an equilateral triangle it is also the mirror image in the edge (theorem
+\* MirrorIsPointReflection below).
 Across(t, k) ==
     LET a == t[k]
         b == t[Nxt(k)]
@@ -129,6 +133,16 @@ IsEdgeReflection(n, t, k) ==
     IN n[2] = b /\ n[3] = c /\ IsMirror(n[1], a, b, c)
 NbrSet(P) == UNION { {VSet(t), VSet(Across(t, 1)), VSet(Across(t, 2)), VSet(Across(t, 3))} : t \in ToSet(P) }
 Neighbourhood(P, R) == ToSet(Geo(R)) = NbrSet(P)      \* every original, its three reflections, nothing else
+\* ... each of them once (where the arithmetic of the instance is exact, coincident vertices are identical vertices)
+NoNeighbourTwice(P, R) == Len(R) = Cardinality(NbrSet(P))
+
+\* the code's formulation on a vertex/index array (array.py neighborhood): the 4n triangles (the three reflections
+\* of every triangle, then the originals), their distinct vertices in lexicographic order, every triangle as the
+\* ascending triple of its vertex positions, the distinct triples in lexicographic order.
+Sort3(t) == LET lo == IF t[1] <= t[2] THEN (IF t[1] <= t[3] THEN t[1] ELSE t[3]) ELSE (IF t[2] <= t[3] THEN t[2] ELSE t[3])
+                hi == IF t[1] >= t[2] THEN (IF t[1] >= t[3] THEN t[1] ELSE t[3]) ELSE (IF t[2] >= t[3] THEN t[2] ELSE t[3])
+            IN << lo, t[1] + t[2] + t[3] - lo - hi, hi >>
+Lex3Lt(a, b) == a[1] < b[1] \/ (a[1] = b[1] /\ (a[2] < b[2] \/ (a[2] = b[2] /\ a[3] < b[3])))
 
 \* ---- selection ------------------------------------------------------------
 \* idx: 1-based positions.  The selected triangles, geometrically identical, each as often as selected.
@@ -150,6 +164,17 @@ LexLt(a, b) == a[1] < b[1] \/ (a[1] = b[1] /\ a[2] < b[2])
 VerticesOf(T) == SetToSortSeq(UNION {VSet(T[k]) : k \in DOMAIN T}, LexLt)
 PosIn(V, p) == CHOOSE j \in DOMAIN V : V[j] = p
 IndicesOf(T, V) == [k \in DOMAIN T |-> << PosIn(V, T[k][1]), PosIn(V, T[k][2]), PosIn(V, T[k][3]) >>]
+NbrAll(T) == [k \in DOMAIN T |-> Across(T[k], 1)] \o [k \in DOMAIN T |-> << T[k][1], Across(T[k], 2)[1], T[k][3] >>]
+             \o [k \in DOMAIN T |-> << T[k][1], T[k][2], Across(T[k], 3)[1] >>] \o T
+NbrVI(T) ==
+    LET all == NbrAll(T)
+        V == VerticesOf(all)
+        I == IndicesOf(all, V)
+        U == SetToSortSeq({ Sort3(I[k]) : k \in DOMAIN I }, Lex3Lt)
+    IN FromVI(V, U)
+\* packing an ascending triple of positions < m into one integer (a faster way to find the distinct triples) is
+\* faithful exactly when the base m is the number of vertices the positions refer to
+PackedKey(t, m) == (t[1] * m + t[2]) * m + t[3]
 
 \* ---- containment ----------------------------------------------------------
 \* A shape is [kind, p, vs]: point p = <<x, y>>; circle p = <<x, y, r>>; square p = <<top, bottom, left, right>>;
@@ -193,26 +218,47 @@ VARIABLES coords,   \* sequence of <<cx, cy>>
           last,     \* name of the last action
           prev,     \* the triangles before the last action
           path,     \* the calls made so far (for replay into the implementation)
-          init      \* the initial input (for replay)
-vars == << coords, flipped, level, yoff, last, prev, path, init >>
+          init,     \* the initial input (for replay)
+          free      \* vertex-array inputs: the triangles as vertex triples on the integer grid (<< >> otherwise)
+vars == << coords, flipped, level, yoff, last, prev, path, init, free >>
 
 Fine(l) == 2 ^ (MaxLevel - l + 2)         \* fine units per lattice unit at level l (a quarter unit is >= 1)
-Tris == TrisOf(coords, flipped, Fine(level), 0, yoff)
+IsFree == free # << >>
+Tris == IF IsFree THEN free ELSE TrisOf(coords, flipped, Fine(level), 0, yoff)
 
 Cells(r) == (-r .. r) \X (-r .. r)
 InitSets == UNION { UNION { kSubset(n, Cells(f[1])) : n \in 1 .. f[2] } : f \in Families }
 
-Init == /\ \E S \in InitSets : coords = SetToSortSeq(S, LexLt)
-        /\ flipped \in BOOLEAN
-        /\ level = 0 /\ yoff = 0 /\ last = "init" /\ prev = << >> /\ path = << >>
-        /\ init = [c |-> coords, fl |-> flipped]
+InitCoord == /\ \E S \in InitSets : coords = SetToSortSeq(S, LexLt)
+             /\ flipped \in BOOLEAN
+             /\ level = 0 /\ yoff = 0 /\ last = "init" /\ prev = << >> /\ path = << >> /\ free = << >>
+             /\ init = [c |-> coords, fl |-> flipped, v |-> << >>, ix |-> << >>]
+
+\* irregular vertex/index arrays: nv distinct grid points (lexicographic order), 2..nt non-degenerate triangles (ascending
+\* position triples) that together use every vertex -- shared and unshared vertices, overlapping and elongated triangles
+NonDegenerate(V, t) == Cross(V[t[1]], V[t[2]], V[t[3]]) # 0
+TriplesOf(V) == { t \in { SetToSortSeq(s, <) : s \in kSubset(3, DOMAIN V) } : NonDegenerate(V, t) }
+FreeInputs(f) ==
+    UNION { LET V == SetToSortSeq(Vs, LexLt)
+                tr == TriplesOf(V)
+            IN { [v |-> V, ix |-> SetToSortSeq(I, Lex3Lt)] :
+                     I \in { J \in UNION { kSubset(n, tr) : n \in 2 .. (IF f[4] <= Cardinality(tr) THEN f[4] ELSE Cardinality(tr)) } :
+                                UNION { ToSet(t) : t \in J } = DOMAIN V } }
+          : Vs \in kSubset(f[3], (0 .. f[1] - 1) \X (0 .. f[2] - 1)) }
+InitFree == /\ \E inp \in UNION { FreeInputs(f) : f \in FreeFamilies } :
+                  /\ free = FromVI(inp.v, inp.ix)
+                  /\ init = [c |-> << >>, fl |-> FALSE, v |-> inp.v, ix |-> inp.ix]
+            /\ coords = << >> /\ flipped = FALSE /\ level = 0 /\ yoff = 0
+            /\ last = "init" /\ prev = << >> /\ path = << >>
+
+Init == InitCoord \/ InitFree
 
 Count(a) == Cardinality({k \in DOMAIN path : path[k].a = a})
 \* a behaviour ends with the containment queries, or one call after an index selection (a selected subset of an
 \* initial input is itself an initial input; the call after it shows that flip state and offsets were kept)
 Live == /\ last # "obs" /\ Len(path) < MaxPath
         /\ (Count("sel") = 1 => last = "sel")
-Dump(p) == PrintT(ToJson([k |-> "beh", c |-> init.c, fl |-> init.fl, path |-> p]))
+Dump(p) == PrintT(ToJson([k |-> "beh", c |-> init.c, fl |-> init.fl, v |-> init.v, ix |-> init.ix, path |-> p]))
 Step(a, t, q) == [a |-> a, t |-> t, q |-> q]
 
 \* coordinate_array.py up_sample: four children per triangle, offsets depend on the flip of the parent; the unit
@@ -221,7 +267,7 @@ ChildCoords(c, f) ==
     IF f = 1 THEN << <<2*c[1], 2*c[2]>>, <<2*c[1] + 1, 2*c[2]>>, <<2*c[1] - 1, 2*c[2]>>, <<2*c[1], 2*c[2] + 1>> >>
              ELSE << <<2*c[1], 2*c[2]>>, <<2*c[1] + 1, 2*c[2] + 1>>, <<2*c[1] - 1, 2*c[2] + 1>>, <<2*c[1], 2*c[2] + 1>> >>
 UpSample ==
-    /\ Live /\ level < MaxLevel /\ Len(coords) <= MaxLenUp
+    /\ Live /\ ~ IsFree /\ level < MaxLevel /\ Len(coords) <= MaxLenUp
     /\ coords' = FlattenSeq([k \in DOMAIN coords |-> ChildCoords(coords[k], FlipOf(coords[k], flipped))])
     /\ flipped' = TRUE
     /\ level' = level + 1
@@ -229,31 +275,40 @@ UpSample ==
     /\ prev' = Tris /\ last' = "up"
     /\ path' = Append(path, Step("up", << >>, << >>))
     /\ Dump(path')
-    /\ UNCHANGED init
+    /\ UNCHANGED << init, free >>
 
 \* coordinate_array.py neighborhood: the triangle itself, left, right, and below (upright) / above (flipped); unique
 NbrCoords(c, f) == { c, <<c[1] + 1, c[2]>>, <<c[1] - 1, c[2]>>, <<c[1], c[2] - f>> }
 Neighborhood ==
-    /\ Live /\ Count("nbr") = 0 /\ Len(coords) <= MaxLenUp
+    /\ Live /\ ~ IsFree /\ Count("nbr") = 0 /\ Len(coords) <= MaxLenUp
     /\ coords' = SetToSortSeq(UNION { NbrCoords(coords[k], FlipOf(coords[k], flipped)) : k \in DOMAIN coords }, LexLt)
     /\ prev' = Tris /\ last' = "nbr"
     /\ path' = Append(path, Step("nbr", << >>, << >>))
     /\ Dump(path')
-    /\ UNCHANGED << flipped, level, yoff, init >>
+    /\ UNCHANGED << flipped, level, yoff, init, free >>
+
+\* array.py neighborhood on an irregular vertex/index array, and the neighbourhood of that neighbourhood
+NeighborhoodVI ==
+    /\ IsFree /\ last # "obs" /\ Len(path) < 2 /\ Len(free) <= MaxLenSel
+    /\ free' = NbrVI(free)
+    /\ prev' = free /\ last' = "nbr"
+    /\ path' = Append(path, Step("nbr", << >>, << >>))
+    /\ Dump(path')
+    /\ UNCHANGED << coords, flipped, level, yoff, init >>
 
 \* for_indexes: the index subsets explored
 SelFamily(n) ==
     IF n <= SelAllMax THEN (SUBSET (1 .. n)) \ {{}}
     ELSE { {1}, {n}, {k \in 1 .. n : k % 2 = 0}, (1 .. n) \ {2}, {k \in 1 .. n : k % 3 = 1} }
 Select ==
-    /\ Live /\ Count("sel") = 0 /\ Count("nbr") = 0 /\ Len(coords) <= MaxLenSel
+    /\ Live /\ ~ IsFree /\ Count("sel") = 0 /\ Count("nbr") = 0 /\ Len(coords) <= MaxLenSel
     /\ \E S \in SelFamily(Len(coords)) :
           LET idx == SetToSortSeq(S, <)
           IN /\ coords' = [k \in DOMAIN idx |-> coords[idx[k]]]
              /\ path' = Append(path, Step("sel", Selected(Tris, idx), << >>))
     /\ prev' = Tris /\ last' = "sel"
     /\ Dump(path')
-    /\ UNCHANGED << flipped, level, yoff, init >>
+    /\ UNCHANGED << flipped, level, yoff, init, free >>
 
 \* containing_indices: the queries are all points of the quarter-unit lattice strictly inside one of the triangles
 QStep == Fine(level) \div 4
@@ -264,13 +319,13 @@ Queries ==
             IN { q \in { <<Min(xs) + a * QStep, Min(ys) + b * QStep>> : a \in 0 .. 8, b \in 0 .. 8 } : InOpen(q, t) }
           : k \in DOMAIN coords }
 Observe ==
-    /\ Live /\ last # "sel" /\ Len(coords) <= MaxLenObs
+    /\ Live /\ ~ IsFree /\ last # "sel" /\ Len(coords) <= MaxLenObs
     /\ last' = "obs"
     /\ path' = Append(path, Step("obs", << >>, SetToSeq(Queries)))
     /\ Dump(path')
-    /\ UNCHANGED << coords, flipped, level, yoff, prev, init >>
+    /\ UNCHANGED << coords, flipped, level, yoff, prev, init, free >>
 
-Next == UpSample \/ Neighborhood \/ Select \/ Observe
+Next == UpSample \/ Neighborhood \/ NeighborhoodVI \/ Select \/ Observe
 Spec == Init /\ [][Next]_vars
 
 -----------------------------------------------------------------------------
@@ -282,7 +337,7 @@ LatticeShape == \A k \in DOMAIN coords : Equilateral(Tris[k]) /\ Area2(Tris[k]) 
                                          /\ Q(Tris[k][1], Tris[k][2]) = 16 * W * W
 \* (a selection or an observation creates no new triangle: checked where the set is new)
 NewSet == last \in {"init", "up", "nbr"}
-LatticeDisjoint == NewSet => (\A i, j \in DOMAIN coords : i < j => coords[i] # coords[j]) /\ PairwiseDisjoint(Tris)
+LatticeDisjoint == NewSet /\ ~ IsFree => (\A i, j \in DOMAIN coords : i < j => coords[i] # coords[j]) /\ PairwiseDisjoint(Tris)
 \* midpoints stay on the fine lattice down to the last level
 MidpointsRepresentable == level < MaxLevel => \A k \in DOMAIN coords : Halvable(Tris[k])
 
@@ -299,9 +354,20 @@ UpAccepted == last = "up" => UpSampled(prev, Tris)
 
 \* on the lattice the mirror image of a vertex in the opposite edge is the point reflection b + c - a
 MirrorIsPointReflection ==
-    last = "nbr" => \A k \in DOMAIN prev : \A j \in 1 .. 3 : IsEdgeReflection(Across(prev[k], j), prev[k], j)
+    last = "nbr" /\ ~ IsFree => \A k \in DOMAIN prev : \A j \in 1 .. 3 : IsEdgeReflection(Across(prev[k], j), prev[k], j)
 \* the parity-dependent neighbour offsets are the edge reflections, and nothing else
-NbrIsReflections == last = "nbr" => Neighbourhood(prev, Tris)
+NbrIsReflections == last = "nbr" => Neighbourhood(prev, Tris) /\ NoNeighbourTwice(prev, Tris)
+\* ... also in the vertex/index formulation on irregular arrays, whose distinct position triples are distinct
+\* triangles; packed keys with the neighbourhood's own vertex count as base tell them apart (a smaller base, such
+\* as the vertex count of the input, need not: the positions of reflected vertices exceed it)
+NbrVIIsNeighbourhood ==
+    last = "nbr" /\ IsFree =>
+        LET V == VerticesOf(Tris)
+            S == { Sort3(t) : t \in ToSet(IndicesOf(Tris, V)) }
+            m == Len(V)
+        IN /\ Cardinality(S) = Len(Tris)
+           /\ Len(VerticesOf(prev)) < m
+           /\ \A s, t \in S : s # t => PackedKey(<<s[1] - 1, s[2] - 1, s[3] - 1>>, m) # PackedKey(<<t[1] - 1, t[2] - 1, t[3] - 1>>, m)
 
 \* selection keeps geometry (flip state and offsets travel with the coordinates)
 SelFaithful == last = "sel" => /\ Tris = path[Len(path)].t
